@@ -1,4 +1,5 @@
 import FatVerif.Proofs.FsInfoImg3
+import FatVerif.Proofs.FatImgZero4
 /-! C05 at image level, part 4: sessions of the FsState-level operations alloc / free / truncate / stats — the
     bookkeeping invariant along them (composition of agent-cursor's forward lemmas of Proofs/FileSimFatAlloc and
     Proofs/FileSimFatFree with `stats_img`). -/
@@ -64,96 +65,84 @@ theorem allocClusterFs_next {prev : Option Nat} {d : Dev} {c : Nat} {d' : Dev}
 
 /-! ### one step -/
 
-/-- **alloc** keeps the session facts; the hint afterwards names a valid cluster -/
-theorem sess_alloc {d : Dev} (hs : Sess d) (hcd : d.fs.curDirty = true) (prev : Option Nat)
+/-- **alloc** (`zero` either way, volume marked dirty or not) keeps the session facts; the volume is marked dirty
+    afterwards; the hint afterwards names a valid cluster; with `zero = true` the new cluster's bytes are all zero;
+    every byte from 0x42 on outside the FAT region and outside the zeroed cluster is unchanged -/
+theorem sess_alloc {d : Dev} (hs : Sess d) (prev : Option Nat) (zero : Bool)
     (hp : ∀ p, prev = some p → 2 ≤ p ∧ p < d.fs.totalClusters + 2 ∧ tabView d.fs d.img p ≠ .free)
-    {c : Nat} {d' : Dev} (hr : run (allocClusterFs prev false) d = (.ok c, d')) :
+    {c : Nat} {d' : Dev} (hr : run (allocClusterFs prev zero) d = (.ok c, d')) :
     Sess d' ∧ d'.fs.curDirty = true ∧ FsGeomEq d.fs d'.fs ∧ d'.fs.fsInfo.dirty = true ∧
     allocFindV (tabView d.fs d.img) d.fs.fsInfo.next d.fs.totalClusters = some c ∧
     tabView d'.fs d'.img = allocLinkV (tabView d.fs d.img) prev c ∧
-    (∃ h, d'.fs.fsInfo.next = some h ∧ 2 ≤ h ∧ h ≤ d'.fs.totalClusters + 1) := by
-  rcases run_allocClusterFs prev d hs.nofault hcd hs.wf hs.geo hs.info.ok hp with
-    ⟨_, dx, hx, _⟩ | ⟨c0, d0, hfind, h0, hst, hcd', htv, hinfo', _⟩
+    d'.fs.fsInfo.next = some (hintAfter d.fs.totalClusters c) ∧
+    2 ≤ hintAfter d.fs.totalClusters c ∧ hintAfter d.fs.totalClusters c ≤ d.fs.totalClusters + 1 ∧
+    (zero = true → ∀ q, clusterOff d.fs c ≤ q → q < clusterOff d.fs c + d.fs.clusterSize → d'.img.getByte q = 0) ∧
+    (∀ q, 0x42 ≤ q → OutsideFat d.fs q →
+      (zero = true → ¬ (clusterOff d.fs c ≤ q ∧ q < clusterOff d.fs c + d.fs.clusterSize)) →
+      d'.img.getByte q = d.img.getByte q) := by
+  rcases run_allocClusterFs_any prev zero d hs.nofault hs.wf hs.geo hs.info.ok hp with
+    ⟨_, dx, hx, _⟩ | ⟨c0, d0, hfind, h0, hst, hfs, htv, hinfo', hz, hfr⟩
   · rw [hr] at hx; cases hx
   · rw [hr] at h0
     cases h0
-    obtain ⟨hnext, hdirty⟩ := allocClusterFs_next hr
     obtain ⟨hc2, hct, _⟩ := allocFindV_some _ _ _ _ hs.info.ok.hint hfind
-    have htot := hst.geom.totalClusters
-    have hbound : 2 ≤ (if c + 1 < d'.fs.totalClusters + 2 then c + 1 else 2) ∧
-        (if c + 1 < d'.fs.totalClusters + 2 then c + 1 else 2) ≤ d'.fs.totalClusters + 1 := by
-      split <;> omega
+    have hnext : d'.fs.fsInfo.next = some (hintAfter d.fs.totalClusters c) := by
+      rw [hfs]; show (FsInfoSt.mapFree _ _).next = _; rw [mapFree_next]
+    have hdirty : d'.fs.fsInfo.dirty = true := by
+      rw [hfs]; show (FsInfoSt.mapFree _ _).dirty = true; exact mapFree_dirty _ _ rfl
+    have hcd' : d'.fs.curDirty = true := by
+      rw [hfs]; show (markedFs d.fs).curDirty = true; exact markedFs_curDirty _
+    have hbound : 2 ≤ hintAfter d.fs.totalClusters c ∧ hintAfter d.fs.totalClusters c ≤ d.fs.totalClusters + 1 := by
+      unfold hintAfter; split <;> omega
     refine ⟨⟨by rw [hst.failAt]; exact hs.nofault, hst.wf hs.wf, by rw [hst.size]; exact hs.geo.frame hst.geom,
-      ⟨hinfo', ?_⟩⟩, hcd', hst.geom, hdirty, hfind, htv, _, hnext, hbound⟩
+      ⟨hinfo', ?_⟩⟩, hcd', hst.geom, hdirty, hfind, htv, hnext, hbound.1, hbound.2, hz, hfr⟩
     intro n hn
     rw [hnext] at hn
     have := Option.some.inj hn
+    rw [hst.geom.totalClusters]
     omega
 
-/-- **free** of a chain of allocated clusters keeps the session facts -/
-theorem sess_free {d : Dev} (hs : Sess d) (hcd : d.fs.curDirty = true) (n : Nat) (cs : List Nat)
+/-- **free** of a chain of allocated clusters (volume marked dirty or not) keeps the session facts -/
+theorem sess_free {d : Dev} (hs : Sess d) (n : Nat) (cs : List Nat)
     (hch : Chain (tabView d.fs d.img) n cs) (hnd : cs.Nodup)
     (hin : ∀ x ∈ cs, 2 ≤ x ∧ x < d.fs.totalClusters + 2 ∧ tabView d.fs d.img x ≠ .free)
     {d' : Dev} (hr : run (freeClusterChain n) d = (.ok (), d')) :
     Sess d' ∧ d'.fs.curDirty = true ∧ FsGeomEq d.fs d'.fs ∧ d'.fs.fsInfo.next = d.fs.fsInfo.next ∧
-    tabView d'.fs d'.img = freedView (tabView d.fs d.img) cs := by
-  have hd := hs.fatDev hcd
-  obtain ⟨d0, h0, hst, htv, hinfo', _⟩ := run_freeClusterChain n cs d hd hs.info.ok hch hnd hin
+    tabView d'.fs d'.img = freedView (tabView d.fs d.img) cs ∧
+    (∀ q, 0x42 ≤ q → OutsideFat d.fs q → d'.img.getByte q = d.img.getByte q) := by
+  obtain ⟨d0, h0, hst, hfs, htv, hinfo', hfr⟩ :=
+    run_freeClusterChain_any n cs d hs.nofault hs.wf hs.geo hs.info.ok hch hnd hin
   rw [hr] at h0
   cases h0
-  -- the hint: recompute the wrapper around `run_citer_free`
-  have hfuel := chain_fuel_ok hnd (fun x hx => (hin x hx).2.1)
-  obtain ⟨d1, it1, h1, _, hfs1, _, _⟩ := run_citer_free d.fs cs n (chainFuel d.fs) (fatSliceOf d.fs) d hd
-    hch hnd (fun x hx => (hin x hx).2.1) hfuel (isFatSlice_self _)
-  have hd' : d' = { d1 with fs := { d1.fs with fsInfo := d1.fs.fsInfo.mapFree (· + cs.length) } } := by
-    have : run (freeClusterChain n) d = (.ok (), { d1 with fs := { d1.fs with fsInfo := d1.fs.fsInfo.mapFree (· + cs.length) } }) := by
-      unfold freeClusterChain
-      rw [run_bind_ok (run_getFs d)]
-      simp only
-      rw [run_bind_ok h1, FileSim.run_modifyFs]
-    rw [hr] at this
-    cases this; rfl
   have hnext : d'.fs.fsInfo.next = d.fs.fsInfo.next := by
-    rw [hd']
-    show (FsInfoSt.mapFree _ _).next = _
-    rw [mapFree_next, hfs1]
-  have hcd' : d'.fs.curDirty = true := by rw [hd']; show d1.fs.curDirty = true; rw [hfs1]; exact hcd
+    rw [hfs]; show (FsInfoSt.mapFree _ _).next = _; rw [mapFree_next]
+  have hcd' : d'.fs.curDirty = true := by
+    rw [hfs]; show (markedFs d.fs).curDirty = true; exact markedFs_curDirty _
   refine ⟨⟨by rw [hst.failAt]; exact hs.nofault, hst.wf hs.wf, by rw [hst.size]; exact hs.geo.frame hst.geom,
-    ⟨hinfo', ?_⟩⟩, hcd', hst.geom, hnext, htv⟩
+    ⟨hinfo', ?_⟩⟩, hcd', hst.geom, hnext, htv, hfr⟩
   intro x hx
   rw [hnext] at hx
   rw [hst.geom.totalClusters]
   exact hs.info.hintLe x hx
 
-/-- **truncate** at an allocated cluster keeps the session facts -/
-theorem sess_truncate {d : Dev} (hs : Sess d) (hcd : d.fs.curDirty = true) (cur : Nat) (t : List Nat)
+/-- **truncate** at an allocated cluster (volume marked dirty or not) keeps the session facts -/
+theorem sess_truncate {d : Dev} (hs : Sess d) (cur : Nat) (t : List Nat)
     (hch : Chain (tabView d.fs d.img) cur (cur :: t)) (hnd : (cur :: t).Nodup)
     (hin : ∀ x ∈ cur :: t, 2 ≤ x ∧ x < d.fs.totalClusters + 2 ∧ tabView d.fs d.img x ≠ .free)
     {d' : Dev} (hr : run (truncateClusterChain cur) d = (.ok (), d')) :
     Sess d' ∧ d'.fs.curDirty = true ∧ FsGeomEq d.fs d'.fs ∧ d'.fs.fsInfo.next = d.fs.fsInfo.next ∧
-    tabView d'.fs d'.img = freedView (updV (tabView d.fs d.img) cur .eoc) t := by
-  have hd := hs.fatDev hcd
-  obtain ⟨d0, h0, hst, htv, hinfo', _⟩ := run_truncateClusterChain cur t d hd hs.info.ok hch hnd hin
+    tabView d'.fs d'.img = freedView (updV (tabView d.fs d.img) cur .eoc) t ∧
+    (∀ q, 0x42 ≤ q → OutsideFat d.fs q → d'.img.getByte q = d.img.getByte q) := by
+  obtain ⟨d0, h0, hst, hfs, htv, hinfo', hfr⟩ :=
+    run_truncateClusterChain_any cur t d hs.nofault hs.wf hs.geo hs.info.ok hch hnd hin
   rw [hr] at h0
   cases h0
-  have hfuel := chain_fuel_ok hnd (fun x hx => (hin x hx).2.1)
-  obtain ⟨d1, it1, h1, _, hfs1, _, _⟩ := run_citer_truncate d.fs t cur (chainFuel d.fs) (fatSliceOf d.fs) d hd
-    hch hnd (fun x hx => (hin x hx).2.1) (by simp at hfuel ⊢; omega) (isFatSlice_self _)
-  have hd' : d' = { d1 with fs := { d1.fs with fsInfo := d1.fs.fsInfo.mapFree (· + t.length) } } := by
-    have : run (truncateClusterChain cur) d = (.ok (), { d1 with fs := { d1.fs with fsInfo := d1.fs.fsInfo.mapFree (· + t.length) } }) := by
-      unfold truncateClusterChain
-      rw [run_bind_ok (run_getFs d)]
-      simp only
-      rw [run_bind_ok h1, FileSim.run_modifyFs]
-    rw [hr] at this
-    cases this; rfl
   have hnext : d'.fs.fsInfo.next = d.fs.fsInfo.next := by
-    rw [hd']
-    show (FsInfoSt.mapFree _ _).next = _
-    rw [mapFree_next, hfs1]
-  have hcd' : d'.fs.curDirty = true := by rw [hd']; show d1.fs.curDirty = true; rw [hfs1]; exact hcd
+    rw [hfs]; show (FsInfoSt.mapFree _ _).next = _; rw [mapFree_next]
+  have hcd' : d'.fs.curDirty = true := by
+    rw [hfs]; show (markedFs d.fs).curDirty = true; exact markedFs_curDirty _
   refine ⟨⟨by rw [hst.failAt]; exact hs.nofault, hst.wf hs.wf, by rw [hst.size]; exact hs.geo.frame hst.geom,
-    ⟨hinfo', ?_⟩⟩, hcd', hst.geom, hnext, htv⟩
+    ⟨hinfo', ?_⟩⟩, hcd', hst.geom, hnext, htv, hfr⟩
   intro x hx
   rw [hnext] at hx
   rw [hst.geom.totalClusters]
